@@ -299,6 +299,7 @@ type backend struct {
 	// asks for the same window, and must come back from each call as it went in
 	partials   map[[3]uint64]*pisces.KVPartial
 	argMutated string
+	staleWalk  string // a typed walk handed Do a value that is not the entry's own
 }
 
 // in makes the caller's slice for a call: the bytes of v with spare capacity behind them.
@@ -454,6 +455,44 @@ func (b *backend) exec(o *op) string {
 		r := classify(o.name, err)
 		if r == "unordered" {
 			return r
+		}
+		// the same walk through a typed decoding target: every value handed to Do must be the
+		// entry's own value, decoded afresh - nothing left over from the entries visited before
+		var typed []string
+		tit := &pisces.Iter{
+			Make: func() interface{} { return new(map[string]json.RawMessage) },
+			Do: func(cls string, v interface{}) error {
+				bs, _ := json.Marshal(*v.(*map[string]json.RawMessage))
+				typed = append(typed, string(bs))
+				return nil
+			},
+		}
+		switch o.name {
+		case "walk":
+			kv.Walk(tit)
+		case "walkClass":
+			kv.WalkClass(o.c, tit)
+		case "walkPartial":
+			kv.WalkPartial(p, tit)
+		default:
+			kv.WalkPartialClass(o.c, p, tit)
+		}
+		for i, raw := range vs {
+			fresh := map[string]json.RawMessage{}
+			if json.Unmarshal([]byte(raw[1]), &fresh) != nil || fresh == nil {
+				break // not an object: the typed walk stops here with a decoding error
+			}
+			want, _ := json.Marshal(fresh)
+			if i >= len(typed) || typed[i] != string(want) {
+				got := "(nothing)"
+				if i < len(typed) {
+					got = typed[i]
+				}
+				if b.staleWalk == "" {
+					b.staleWalk = fmt.Sprintf("entry %d of the walk holds %s; decoded into the iterator's map target, Do was handed %s", i, raw[1], got)
+				}
+				break
+			}
 		}
 		return walkedStr(r, vs)
 	}
@@ -900,6 +939,14 @@ func (w *world) runHistory(ops []string) ([]outs, *failure) {
 				who string
 				b   *backend
 			}{{"mem", w.mem[o.store]}, {"sql", w.sql[o.store]}} {
+				if p.b != nil && p.b.staleWalk != "" {
+					f = &failure{
+						key: fmt.Sprintf("%s-walk-value-not-fresh:%s", p.who, opName(l)),
+						desc: fmt.Sprintf("%s backend: %q through an Iter whose Make returns a *map: %s - the visited value differs from what Get "+
+							"returns for the entry (members of earlier entries left over)", p.who, l, p.b.staleWalk),
+					}
+					break
+				}
 				if p.b != nil && p.b.argMutated != "" {
 					f = &failure{
 						key: fmt.Sprintf("%s-argument-struct-mutated:%s", p.who, opName(l)),
@@ -1027,7 +1074,7 @@ func (g *gen) keyPool() []string {
 
 var classPool = []string{"", "", "c1", "c2", "odd", "é", "c 1", rep("C", 255), rep("C", 256)}
 
-var jsonPool = []string{`1`, `0`, `-1.5e+3`, `"v"`, `"v1"`, `""`, `{}`, `[]`, `null`, `true`, `{"Value":"v1"}`, `[1,2,3]`,
+var jsonPool = []string{`{"a":1}`, `{"b":2}`, `{"a":1,"b":2}`, `{"Value":"v2","X":1}`, `1`, `0`, `-1.5e+3`, `"v"`, `"v1"`, `""`, `{}`, `[]`, `null`, `true`, `{"Value":"v1"}`, `[1,2,3]`,
 	`{"a":{"b":[null,false]}}`, `"日本"`, `"\u0000"`, `12345678901234567890`, `"a\"b\\c"`}
 
 // raw chunks for AppendBytes/SetBytes: concatenations are sometimes valid JSON, often not
